@@ -264,8 +264,19 @@ def usable(t):
     return not H.state_run(t, {f: H.values_for(f, 1) for f in fs})["rejected"]
 
 
+def deductive(ctx):
+    """engine D: Task.combine stores exactly the combiner that was given (a single name wrapped in a list) on a COPY of the
+    task, and only if its own field names are fields of the task -- contracts/combine_validation.py.  The grouping itself
+    (State.combine algebra, LazyOutField grouping) is bounded only."""
+    from contracts import combine_validation as CV
+    from pyvc.verify import verify, summarize
+
+    summarize(ctx, verify(ctx, CV.contract("property:C02")))
+
+
 def run(ctx):
     try:
+        deductive(ctx)
         _run(ctx)
     finally:
         H.close_pool()
